@@ -11,6 +11,7 @@ import DesyncModel.Inv.SigReach
 import DesyncModel.Inv.DrainReach
 import DesyncModel.Inv.ResReach
 import DesyncModel.Inv.TaskWaker
+import DesyncModel.Inv.FutMono
 
 namespace Desync.C07
 open Desync Gen
@@ -190,5 +191,18 @@ example : TaskWakerInv { initState 1 0 1 with futs := [{ q := 0, res := .none, w
     | 0 => simp at hf; subst hf; exact optTask_task 2
     | n + 1 => simp at hf
   · intro u sf hu; simp [initState] at hu
+
+/-- **A future belongs to one queue for its whole life**: no step of the model — internal or environment — removes a
+`SchedulerFuture` or changes the queue it belongs to (`FutMono`, a two-state fact over every program counter and every label),
+so `.sync()` on a returned future always synchronises with the object its operation was scheduled on. -/
+theorem future_keeps_its_queue {s s' : State} {l : Label} (hstep : next s l = some s') {f : Nat} {fu : Fut}
+    (hf : s.futs[f]? = some fu) : ∃ fu', s'.futs[f]? = some fu' ∧ fu'.q = fu.q :=
+  (futMono_next hstep).1 f fu hf
+
+/-- the same for the value returned by `future_sync`: it keeps its scheduler future, its queue and its operation -/
+theorem sync_future_keeps_its_parts {s s' : State} {l : Label} (hstep : next s l = some s') {u : Nat} {sf : SyncFut}
+    (hu : s.sfs[u]? = some sf) : ∃ sf', s'.sfs[u]? = some sf' ∧ sf'.f = sf.f ∧ sf'.q = sf.q ∧ sf'.op = sf.op := by
+  obtain ⟨sf', h1, h2, h3, h4, _⟩ := (futMono_next hstep).2 u sf hu
+  exact ⟨sf', h1, h2, h3, h4⟩
 
 end Desync.C07
